@@ -70,13 +70,13 @@ def PArg.valid (O : Ops μ ρ) (K : Nat) : PArg ρ → Bool
   | .none => true
   | .scalar x => O.pos x
   | .vec xs => xs.length == K && xs.all O.pos
+  | .malformed => false
 
 /-- shape contract of the parameters of an operation: the drawn matrices have the
-    requested numbers of columns, the solution has the reported ones, and `solve`
-    is called with a power it accepts -/
+    requested numbers of columns, the solution has the reported ones -/
 def Op.shapeOK (O : Ops μ ρ) (K : Nat) : Op μ ρ → Prop
   | .randomizeF drawn ns _ => O.ncols (O.normalize drawn) = ns.expand K
-  | .solve _ _ p sol => O.ncols sol.f = sol.ns ∧ PArg.valid O K p = true
+  | .solve _ _ _ sol => O.ncols sol.f = sol.ns
   | _ => True
 
 /-! ### basic facts -/
@@ -96,6 +96,7 @@ theorem setP_cases (O : Ops μ ρ) (K : Nat) (st : State μ ρ) (v : PArg ρ) :
     · by_cases h2 : xs.all O.pos
       · exact .inl ⟨some xs, by simp only [setP, h1, h2, if_false, if_true]⟩
       · exact .inr (by simp only [setP, h1, h2, if_false]; rfl)
+  | malformed => exact .inr rfl
 
 theorem setP_valid (O : Ops μ ρ) (K : Nat) (st : State μ ρ) (v : PArg ρ) (hv : PArg.valid O K v = true) :
     ∃ p, setP Cfg.fixed O K st v = (storeP Cfg.fixed st p, .ok ()) := by
@@ -105,6 +106,7 @@ theorem setP_valid (O : Ops μ ρ) (K : Nat) (st : State μ ρ) (v : PArg ρ) (h
   | vec xs =>
     simp only [PArg.valid, Bool.and_eq_true, beq_iff_eq] at hv
     exact ⟨some xs, by simp [setP, hv.1, hv.2]⟩
+  | malformed => simp [PArg.valid] at hv
 
 theorem getWH_readW (O : Ops μ ρ) (st : State μ ρ) : getWH O (readW O st).1 = getWH O st := by
   unfold getWH readWH readW
